@@ -1,8 +1,20 @@
 import CM.Lib.Wire
-/-! Driver handler for C09 (stub: not built yet). -/
+/-! Driver handler for C09: the model's prediction for every (operation, fault point, fault
+kind) is that nothing is left held (CM/Props/C09 + CM/Tie/C09); the spec judges the
+implementation's leftovers. -/
 namespace CM.Drv.C09
 open CM.Wire
 
-def handle (_args _impl : List String) : String := bad
+def handle (args impl : List String) : String :=
+  match args with
+  | ["run", scn, site, _k, kind, outcome] =>
+    let spec := match impl with
+      | [held, inMap] =>
+        if held ≠ "0" then "bad:lock-held-in-storage-after-return"
+        else if inMap ≠ "0" then "bad:process-lock-record-not-empty"
+        else "ok"
+      | _ => "-"
+    reply "0 0" spec (scn ++ ":" ++ site ++ ":" ++ kind ++ ":" ++ outcome)
+  | _ => bad
 
 end CM.Drv.C09
